@@ -37,6 +37,19 @@ def client_call(req, hashseed="random"):
     return _recv(proc.stdout)
 
 
+def reset_servers():
+    """Terminate this process's helper interpreters: the next request starts fresh ones. Used for every execution made while
+    minimising or replaying, so that nothing a helper remembers from earlier requests can make a case fail (or pass)."""
+    for key, proc in list(_procs.items()):
+        try:
+            proc.stdin.close()
+            proc.terminate()
+            proc.wait(timeout=10)
+        except Exception:
+            pass
+        _procs.pop(key, None)
+
+
 def serve():
     here = os.path.dirname(os.path.dirname(os.path.abspath(__file__)))
     sys.path.insert(0, here)
